@@ -10,6 +10,7 @@ import Hy.Drv.Frag
 import Hy.Drv.Salamander
 import Hy.Drv.Acl
 import Hy.Drv.Punch
+import Hy.Drv.PunchSrv
 import Hy.Drv.Stats
 import Hy.Drv.Reconnect
 import Hy.Drv.QuicInitial
@@ -59,6 +60,7 @@ def main (args : List String) : IO UInt32 := do
   | ["acl"] => loopState stdin stdout Acl.step Acl.init; return 0
   | ["punchcodec"] => loopPure stdin stdout Punch.stepCodec; return 0
   | ["punchconn"] => loopState stdin stdout Punch.stepConn Punch.initConn; return 0
+  | ["punchsrv"] => loopState stdin stdout PunchSrv.step PunchSrv.init; return 0
   | ["stats"] => loopState stdin stdout Stats.step Stats.init; return 0
   | ["reconnect"] => loopPure stdin stdout Reconnect.step; return 0
   | ["sniff"] => loopPure stdin stdout QuicInitial.step; return 0
